@@ -146,6 +146,11 @@ func run(c kvh.Case) (flags, pbt.Info, error) {
 		default:
 			return fl, info, fmt.Errorf("bad op %q", op.O)
 		}
+		if i < 48 || i%8 == 0 {
+			if err := box.Poke(i); err != nil {
+				return fail(i, op, "%v", err)
+			}
+		}
 		// ---- observers after every step ----
 		n := m.Len()
 		if got := box.Size(); got != n {
